@@ -69,39 +69,39 @@ void h_tlv_writers(void) {
     size_t r;
     struct v_led led0 = g_led;
     switch (in.which) {
-        case 0:  r = v_call_writer(in.which, b, in.off);          W_CHECK(r, 0x01, false); break;
-        case 1:  r = v_call_writer(in.which, b, in.off); W_CHECK(r, 0x02, false); break;
-        case 2:  r = v_call_writer(in.which, b, in.off);  W_CHECK(r, 0x03, false); break;
-        case 3:  r = v_call_writer(in.which, b, in.off);            W_CHECK(r, 0x07, false); break;
-        case 4:  r = v_call_writer(in.which, b, in.off);            W_CHECK(r, 0x08, false); break;
-        case 5:  r = v_call_writer(in.which, b, in.off);            W_CHECK(r, 0x0A, false); break;
-        case 6:  r = v_call_writer(in.which, b, in.off);       W_CHECK(r, 0x0C, false); break;
-        case 7:  r = v_call_writer(in.which, b, in.off);               W_CHECK(r, 0x0F, false); break;
-        case 8:  r = v_call_writer(in.which, b, in.off);        W_CHECK(r, 0x04, !g_cfg.wifi); break;
-        case 9:  r = v_call_writer(in.which, b, in.off);           W_CHECK(r, 0x05, !g_cfg.wifi || g_cfg.bssid_fail); break;
-        case 10: V_ASSUME(g_cfg.wifi); r = v_call_writer(in.which, b, in.off);        W_CHECK(r, 0x06, false); break;
-        case 11: V_ASSUME(g_cfg.wifi); r = v_call_writer(in.which, b, in.off); W_CHECK(r, 0x09, false); break;
-        case 12: V_ASSUME(g_cfg.wifi); r = v_call_writer(in.which, b, in.off);    W_CHECK(r, 0x0D, false); break;
-        case 13: r = v_call_writer(in.which, b, in.off);     W_CHECK(r, 0x14, false); break;
-        case 14: r = v_call_writer(in.which, b, in.off);              W_CHECK(r, 0x0E, false); break;
-        case 15: r = v_call_writer(in.which, b, in.off);           W_CHECK(r, 0x11, false); break;
+        case 0:  r = v_call_writer(0, b, in.off);          W_CHECK(r, 0x01, false); break;
+        case 1:  r = v_call_writer(1, b, in.off); W_CHECK(r, 0x02, false); break;
+        case 2:  r = v_call_writer(2, b, in.off);  W_CHECK(r, 0x03, false); break;
+        case 3:  r = v_call_writer(3, b, in.off);            W_CHECK(r, 0x07, false); break;
+        case 4:  r = v_call_writer(4, b, in.off);            W_CHECK(r, 0x08, false); break;
+        case 5:  r = v_call_writer(5, b, in.off);            W_CHECK(r, 0x0A, false); break;
+        case 6:  r = v_call_writer(6, b, in.off);       W_CHECK(r, 0x0C, false); break;
+        case 7:  r = v_call_writer(7, b, in.off);               W_CHECK(r, 0x0F, false); break;
+        case 8:  r = v_call_writer(8, b, in.off);        W_CHECK(r, 0x04, !g_cfg.wifi); break;
+        case 9:  r = v_call_writer(9, b, in.off);           W_CHECK(r, 0x05, !g_cfg.wifi || g_cfg.bssid_fail); break;
+        case 10: V_ASSUME(g_cfg.wifi); r = v_call_writer(10, b, in.off);        W_CHECK(r, 0x06, false); break;
+        case 11: V_ASSUME(g_cfg.wifi); r = v_call_writer(11, b, in.off); W_CHECK(r, 0x09, false); break;
+        case 12: V_ASSUME(g_cfg.wifi); r = v_call_writer(12, b, in.off);    W_CHECK(r, 0x0D, false); break;
+        case 13: r = v_call_writer(13, b, in.off);     W_CHECK(r, 0x14, false); break;
+        case 14: r = v_call_writer(14, b, in.off);              W_CHECK(r, 0x0E, false); break;
+        case 15: r = v_call_writer(15, b, in.off);           W_CHECK(r, 0x11, false); break;
         case 16:
-            r = v_call_writer(in.which, b, in.off);
+            r = v_call_writer(16, b, in.off);
             V_POST("C02.end-marker: one zero byte", r == 1 && b[in.off] == 0 && (g_j == in.off || b[g_j] == o[g_j]));
             break;
         case 17:
-            r = v_call_writer(in.which, b, in.off);
+            r = v_call_writer(17, b, in.off);
             V_POST("C02.writer-absent-writes-nothing", r == 0 && b[g_j] == o[g_j]);
             break;
-        case 18: r = v_call_writer(in.which, b, in.off);            W_CHECK(r, 0x10, false); break;
+        case 18: r = v_call_writer(18, b, in.off);            W_CHECK(r, 0x10, false); break;
         case 19:
             /* not part of any frame the responder sends; with no UUID available it writes an empty property */
-            r = v_call_writer(in.which, b, in.off);
+            r = v_call_writer(19, b, in.off);
             V_POST("C04.uuid-writer: 16 bytes when the platform has a UUID, an empty property otherwise",
                    b[in.off] == 0x12 && r == 2u + b[in.off + 1] && (b[in.off + 1] == 0 || b[in.off + 1] == 16) &&
                    ((g_j >= in.off && g_j < in.off + r) || b[g_j] == o[g_j]));
             break;
-        case 20: r = v_call_writer(in.which, b, in.off);             W_CHECK(r, 0x13, g_cfg.hwid_len == 0); break;
+        case 20: r = v_call_writer(20, b, in.off);             W_CHECK(r, 0x13, g_cfg.hwid_len == 0); break;
         default: r = 0; break;
     }
     (void)r; (void)led0;
